@@ -130,3 +130,66 @@ def minimal_value(name):
             mand.append(dict(p=True, iei=0, len=mn, v=v))
     opt = [dict(p=False, iei=0, len=0, v=[]) for s in t["slots"] if not s["mand"]]
     return dict(mand=mand, opt=opt)
+
+
+def hdr_variants(name, inp):
+    """the header octets routing and framing do not interpret (security header type / PDU session id, PTI) set to non-zero
+    values: the same message, other don't-care octets"""
+    t = TBL[name]; out = []
+    if t["family"] == "GMM" and len(inp) >= 3:
+        for v in (0x10, 0xF7):
+            out.append(inp[:1] + [v] + inp[2:])
+    elif t["family"] == "GSM" and len(inp) >= 4:
+        for a, b in ((5, 7), (0xFE, 0x41)):
+            out.append(inp[:1] + [a, b] + inp[3:])
+    return out
+
+
+def confirm_by_tlc(c, drv, case, trace_module, cls, context=()):
+    """re-run one case in a fresh driver process - alone, and if that does not reproduce, after the cases that
+    preceded it (the driver interleaves a call on the previous case's message, so a mismatch may need that
+    history) - and let TLC judge the new observation: confirmed when the same class is reported for the case again"""
+    for hist in ([case], list(context) + [case]):
+        if len(hist) == 1 and hist[0].get("k") == "rand": return True
+        ev, hang = run_codec(c, drv, hist, name="confirm")
+        if hang is not None: return True
+        if len(ev) != len(hist): continue
+        n0 = c.cov["traces_validated_against_impl"]
+        mism = c.validate(trace_module, ev, shards=1)
+        c.cov["traces_validated_against_impl"] = n0
+        if any(t[0] == "MISMATCH" and t[2] == cls and i == len(hist) - 1 for i, t in mism): return True
+        if not context: break
+    return False
+
+
+def length_positions(name, inp):
+    """positions (0-based) and widths of the length fields the table-driven parse of inp visits: [(pos, lsz, slotname)]"""
+    t = TBL[name]; out = []; pos = 0
+    for sl in (x for x in t["slots"] if x["mand"]):
+        if sl["lsz"] == 0:
+            pos += sl["max"]
+        else:
+            if pos + sl["lsz"] > len(inp): return out
+            l = inp[pos] if sl["lsz"] == 1 else inp[pos] * 256 + inp[pos + 1]
+            out.append((pos, sl["lsz"], sl["name"])); pos += sl["lsz"] + l
+        if pos > len(inp): return out
+    opt = {}
+    for sl in t["slots"]:
+        if not sl["mand"]: opt.setdefault(sl["iei"], sl)
+    while pos < len(inp):
+        b = inp[pos]; tag = b // 16 if b >= 128 else b
+        sl = opt.get(tag)
+        if sl is None or sl["half"]: pos += 1; continue
+        pos += 1
+        if sl["lsz"] == 0: pos += sl["max"]; continue
+        if pos + sl["lsz"] > len(inp): return out
+        l = inp[pos] if sl["lsz"] == 1 else inp[pos] * 256 + inp[pos + 1]
+        out.append((pos, sl["lsz"], sl["name"])); pos += sl["lsz"] + l
+    return out
+
+
+def unknown_octet(name):
+    known = {s["iei"] for s in TBL[name]["slots"] if not s["mand"]}
+    for b in (0x02, 0x03, 0x04, 0x05, 0x06, 0x07):
+        if b not in known: return b
+    return next(b for b in range(16, 128) if b not in known)
